@@ -1,6 +1,7 @@
 package html
 
 import (
+	"fmt"
 	"sort"
 	"strings"
 	"sync"
@@ -99,7 +100,7 @@ func (publisher *Publisher) sendIndividualFiles(files chan *core.File) {
 			)
 		}
 
-		for _, individual := range publisher.individuals {
+		for key, individual := range publisher.individuals {
 			if individual.IsLiving() {
 				switch publisher.options.LivingVisibility {
 				case LivingVisibilityHide,
@@ -114,9 +115,7 @@ func (publisher *Publisher) sendIndividualFiles(files chan *core.File) {
 			page := NewIndividualPage(publisher.doc, individual,
 				publisher.GoogleAnalyticsID, publisher.options,
 				publisher.indexLetters, publisher.placesMap)
-			pageName := PageIndividual(publisher.doc, individual,
-				publisher.options.LivingVisibility, publisher.placesMap)
-			files <- core.NewFile(pageName, page)
+			files <- core.NewFile(fmt.Sprintf("%s.html", key), page)
 		}
 	}
 }
